@@ -99,7 +99,7 @@ func (e *c02env) text(raw []rune, pats [][]rune) {
 	r.State()
 }
 
-var c02TextAlpha = []rune{'a', 'b', 'A', 'á', 'Á', ' ', '/', '_', '1', '가', '-'}
+var c02TextAlpha = []rune{'a', 'b', 'A', 'á', 'Á', ' ', '\u3000', '/', '_', '1', '가', '-'}
 var c02PatAlpha = []rune{'a', 'b', 'A', 'á', ' ', '/'}
 
 func TestVerif_C02_short(t *testing.T) {
